@@ -2,7 +2,7 @@
    Only statements, each closed by [exact] of a lemma proved in Heapq/. *)
 From Coq Require Import ZArith List.
 Import ListNotations.
-From Mds Require Import Heapq.HeapqModel Heapq.HeapqSpec Heapq.HeapqHist.
+From Mds Require Import Heapq.HeapqModel Heapq.HeapqSpec Heapq.HeapqHist Heapq.HeapqSkel.
 Local Open Scope Z_scope.
 
 (* For EVERY variant of the model (so also for the pinned code with findings F1/F2), every element
@@ -24,6 +24,20 @@ Theorem C06_positions_from_new : forall (T : Type) (v : variant) (c : T -> T -> 
 Proof. intros T v c ops. apply hist_positions; [constructor|intros e i []]. Qed.
 Print Assumptions C06_positions_from_new.
 
+(* from the moment an update function is installed (Update(f)) on ANY queue of distinct elements:
+   nothing is tracked yet, the claim holds for every element that enters from then on *)
+Theorem C06_positions_after_install : forall (T : Type) (v : variant) (q : queue T) (ops : list (op T)),
+  NoDup (data q) -> hist_pos T v q [] [] ops.
+Proof. intros T v q ops H. apply hist_positions; [exact H|intros e i []]. Qed.
+Print Assumptions C06_positions_after_install.
+
+(* the calls of the update function the model's log stands for are where the source has them: the
+   statement skeletons of all functions, the order report-before-sift in Add/pop/Set, the reported
+   indexes (Add: n, pop: i, Set: i, swap: i then j) are regenerated from the Go AST on every run *)
+Theorem C06_skeleton : skeleton_of_source = skeleton_of_model /\ calls_as_modelled.
+Proof. exact skeleton_pinned. Qed.
+Print Assumptions C06_skeleton.
+
 (* the statement is about something: a concrete history (Set, two Adds, an interior Remove) whose
    log has 13 entries and moves elements between offsets *)
 Example C06_example :
@@ -31,3 +45,14 @@ Example C06_example :
   option_map (@data Z) (exec Z pinned (New Z zc) [OSet [5; 3; 8; 1; 9; 2; 7]; OAdd 4; OAdd 6; ORemove 3])
   = Some [1; 3; 2; 5; 6; 8; 7; 9].
 Proof. vm_compute. reflexivity. Qed.
+
+(* ... and in that history the last reported position of every held element is its offset: the
+   whole log is folded into a position table (later entries win) and compared with the layout *)
+Example C06_example_positions :
+  let zc := fun a b : Z => a - b in
+  let outs := run Z pinned (New Z zc) [OSet [5; 3; 8; 1; 9; 2; 7]; OAdd 4; OAdd 6; ORemove 3] in
+  let log := flat_map (fun r => match r with Ok (_, m) => m | _ => [] end) outs in
+  let last_pos (e : Z) := fold_left (fun acc (m : Z * Z) => if Z.eqb (fst m) e then Some (snd m) else acc) log None in
+  length log = 24%nat /\
+  map last_pos [1; 3; 2; 5; 6; 8; 7; 9] = map Some [0; 1; 2; 3; 4; 5; 6; 7].
+Proof. vm_compute. split; reflexivity. Qed.
